@@ -193,7 +193,7 @@ func identify(data []byte, pays []payload) (cell, bool) {
 }
 
 type cwriter struct {
-	w      interface {
+	w interface {
 		Write([]byte) (int, error)
 		Close() error
 	}
@@ -463,12 +463,12 @@ func runCalls(out string, seed int64, nTraces, steps int, guard *h.StdioGuard) i
 // mode crash
 
 type fsEvent struct {
-	K     int    // boundary index
-	Op    string // verifFS label
-	Path  string
-	Snap  map[string]fent
-	Inj   bool // a failure was injected at this boundary
-	Hist  int  // index of the history operation in progress
+	K    int    // boundary index
+	Op   string // verifFS label
+	Path string
+	Snap map[string]fent
+	Inj  bool // a failure was injected at this boundary
+	Hist int  // index of the history operation in progress
 }
 
 type histOp struct {
@@ -481,26 +481,26 @@ type histOp struct {
 }
 
 type imageObs struct {
-	ID       int      `json:"id"`
-	Hist     int      `json:"hist"`
-	K        int      `json:"k"`
-	Label    string   `json:"label"`
-	Mode     string   `json:"mode"` // crash | power
-	Variant  string   `json:"variant"`
-	Acked    int      `json:"acked"`
-	Ingested int      `json:"ingested"`
-	Rows     int      `json:"rows"`
-	Missing  int      `json:"missing_acked"` // acknowledged rows not returned
-	Invented int      `json:"invented"`      // rows never ingested before the boundary
-	Dups     int      `json:"dups"`          // rows returned more often than ingested
-	QErr     string   `json:"qerr"`
-	Panic    string   `json:"panic"`
-	InWindow bool     `json:"in_window"`      // boundary inside a merge window (rename of the output .. durable removal)
-	AfterMerge bool   `json:"after_merge"`    // a merge had returned before the boundary
-	Differs  bool     `json:"differs"`        // image differs from the empty and from the final directory
-	Ops      []histOp `json:"ops"`
-	Stdio    int      `json:"stdio"`
-	Sample   []string `json:"sample"`
+	ID         int      `json:"id"`
+	Hist       int      `json:"hist"`
+	K          int      `json:"k"`
+	Label      string   `json:"label"`
+	Mode       string   `json:"mode"` // crash | power
+	Variant    string   `json:"variant"`
+	Acked      int      `json:"acked"`
+	Ingested   int      `json:"ingested"`
+	Rows       int      `json:"rows"`
+	Missing    int      `json:"missing_acked"` // acknowledged rows not returned
+	Invented   int      `json:"invented"`      // rows never ingested before the boundary
+	Dups       int      `json:"dups"`          // rows returned more often than ingested
+	QErr       string   `json:"qerr"`
+	Panic      string   `json:"panic"`
+	InWindow   bool     `json:"in_window"`   // boundary inside a merge window (rename of the output .. durable removal)
+	AfterMerge bool     `json:"after_merge"` // a merge had returned before the boundary
+	Differs    bool     `json:"differs"`     // image differs from the empty and from the final directory
+	Ops        []histOp `json:"ops"`
+	Stdio      int      `json:"stdio"`
+	Sample     []string `json:"sample"`
 }
 
 type dirOp struct {
